@@ -105,6 +105,13 @@ func c16fields() []c16field {
 		{name: "AL", typ: reflect.TypeOf(""), tag: `yaml:"al" aliases:"al1,al2"`, key: "al", aliases: []string{"al1", "al2"},
 			vals: []c16val{{`"a1"`, "a1", false}, {`"a2"`, "a2", false}},
 			zero: "", sentinel: func() reflect.Value { return rv("SENT") }, sentNorm: "SENT"},
+		// the same primary keys as S and AL, with different alias lists (cross-type state must not leak)
+		{name: "SA", typ: reflect.TypeOf(""), tag: `yaml:"s" aliases:"al1"`, key: "s", aliases: []string{"al1"},
+			vals: []c16val{{`"v1"`, "v1", false}},
+			zero: "", sentinel: func() reflect.Value { return rv("SENT") }, sentNorm: "SENT"},
+		{name: "ALB", typ: reflect.TypeOf(""), tag: `yaml:"al" aliases:"al2"`, key: "al", aliases: []string{"al2"},
+			vals: []c16val{{`"a1"`, "a1", false}},
+			zero: "", sentinel: func() reflect.Value { return rv("SENT") }, sentNorm: "SENT"},
 		{name: "PA", typ: reflect.TypeOf((*string)(nil)), tag: `yaml:"pa,omitempty" aliases:"pa1"`, key: "pa", aliases: []string{"pa1"}, nillable: true,
 			vals: []c16val{{`"p1"`, "p1", false}, {`""`, "", false}},
 			zero: c16nilPtr, sentinel: func() reflect.Value { s := "SENT"; return rv(&s) }, sentNorm: "SENT"},
@@ -509,6 +516,21 @@ func c16run(w *report.W) {
 			return
 		}
 		for i := start; i < len(all); i++ {
+			// no two fields of one struct may answer to the same name
+			names := map[string]bool{}
+			for _, f := range cur {
+				names[f.key] = true
+				for _, a := range f.aliases {
+					names[a] = true
+				}
+			}
+			clash := names[all[i].key]
+			for _, a := range all[i].aliases {
+				clash = clash || names[a]
+			}
+			if clash {
+				continue
+			}
 			rec(i+1, append(cur, all[i]))
 		}
 	}
